@@ -52,7 +52,7 @@ func engineSendWrapper(w *ssa.Function) int {
 		return -1
 	}
 	for i, p := range w.Params {
-		n := "p:" + p.Name()
+		n := "p:" + engine.ParamName(p)
 		if descCell(a[1]) == n+".MsgID" && descCell(a[2]) == n+".SeqNo" && descCell(a[3]) == n+".Input" {
 			// on every path: no exit of w avoids the send
 			for _, r := range exits(w) {
